@@ -59,4 +59,18 @@ func main() {
 	os.Exit(d.run())
 }
 
-func witnessDir(prop string) string { return filepath.Join(verifDir, "witness", prop) }
+func witnessDir(prop string) string {
+	if v := os.Getenv("VERIF_WITNESS_DIR"); v != "" {
+		return filepath.Join(v, prop)
+	}
+	return filepath.Join(verifDir, "witness", prop)
+}
+
+// evidenceDir is /verif/evidence unless overridden (seed tests must not
+// overwrite the evidence of the unchanged tree).
+func evidenceDir() string {
+	if v := os.Getenv("VERIF_EVIDENCE_DIR"); v != "" {
+		return v
+	}
+	return filepath.Join(verifDir, "evidence")
+}
